@@ -558,9 +558,10 @@ pub mod store {
 
 	/// Flushes the oldest immutable memtable only (what one step of the background flush task does).
 	pub fn flush_oldest(tree: &Tree) -> std::result::Result<bool, String> {
-		let r = tree.core.inner.flush_oldest_immutable_to_sst().map_err(|e| e.to_string())?;
+		let had = tree.core.inner.has_pending_immutables();
+		tree.core.inner.compact_memtable().map_err(|e| e.to_string())?;
 		tree.core.write_stall.signal_work_done();
-		Ok(r.is_some())
+		Ok(had)
 	}
 
 	/// One compaction round with the leveled strategy built from the tree's options.
